@@ -468,11 +468,12 @@ fn case(seed: u64, trace: bool) -> CaseOut {
             }
         }
     }
-    // (bytes of a frame the victim should have refused were never registered with the ledger: their
-    // delivery is the same event as the acceptance reported above, not a second violation)
+    // (a frame the victim should have refused was never registered with the ledger: what the ledger then
+    // says about that stream - bytes beyond written, an end of stream it knows no final size for - is
+    // the same event as the acceptance reported above, not a second violation)
     let wrongly_accepted = violations.iter().any(|v| v.starts_with("victim accepted a frame that breaks its advertised limits"));
     for v in s.w.all_violations() {
-        if matches!(v.prop, "C01" | "C06" | "C11") && !(wrongly_accepted && v.msg.contains("beyond written")) {
+        if matches!(v.prop, "C01" | "C06" | "C11") && !(wrongly_accepted && matches!(v.prop, "C01" | "C11")) {
             violations.push(format!("[{}] {}", v.prop, v.msg));
         }
     }
